@@ -85,7 +85,7 @@ where
         let mut tmp_int_config = self.device.config.int_config.get_config1();
 
         // Disable the interrupt, if active
-        if (self.device.config.int_config.get_config1().d_tap_int()
+        if (self.device.config.int_config.get_config1().s_tap_int()
             || self.device.config.int_config.get_config1().d_tap_int())
             && tap_changes
         {
